@@ -2,6 +2,7 @@ import PoaVerif.Lemmas.EndBlock
 import PoaVerif.Lemmas.FramePoa
 import PoaVerif.Model.Spec
 import PoaVerif.Props.C04
+import PoaVerif.Lemmas.Corollaries
 /-
   C13 — slashing/jailing and admin operations compose safely.
   FALSE of the code as stated (D4, D5 — witnesses are `C04.c04_D4_witness`, `C04.c04_D5_witness`: an admin
@@ -117,5 +118,21 @@ theorem c13_slashing_frame (votes : List Vote) (s s' : App) (h : slashingBegin v
     s'.pending = s.pending ∧ s'.cached = s.cached ∧ s'.absCh = s.absCh ∧ s'.params = s.params :=
   let ⟨a, _, c, d, e, _, _⟩ := slashingBegin_same votes s s' h
   ⟨a, c, d, e⟩
+
+/-- **C13, a jailed validator is not in CometBFT's next set — whatever the block's transactions did** (partial: the
+    state enters the EndBlocker inside `Pre`): for every `Pre` state and every validator record with the jailed flag -/
+theorem c13_jailed_out_partial (s s' : App) (c c' : CSet) (ups : List (Nat × Int)) (hpre : Pre s c = true)
+    (h : s.stakingEndBlock = .ok (ups, s')) (hc : Comet.applyChangeSet c ups = .ok c')
+    (op : Nat) (v : Val) (hv : s.getVal op = some v) (hj : v.jailed = true) :
+    alookup v.key c' = none :=
+  jailed_out_pre s s' c c' ups hpre h hc op v hv hj
+
+/-- **C13, an un-jailed validator returns with the power of its tokens** (partial, `Pre`): once `Unjail` has
+    cleared the flag and written the index entry, the next set carries `tokens / 10^6` for its key -/
+theorem c13_return_partial (s s' : App) (c c' : CSet) (ups : List (Nat × Int)) (hpre : Pre s c = true)
+    (h : s.stakingEndBlock = .ok (ups, s')) (hc : Comet.applyChangeSet c ups = .ok c')
+    (op : Nat) (v : Val) (hv : s.getVal op = some v) (hcand : hasCandEntry s v = true) :
+    alookup v.key c' = some ((powerOf v.tokens : Nat) : Int) :=
+  effect_pre s s' c c' ups hpre h hc op v hv hcand
 
 end PoaVerif.Props.C13
